@@ -1,9 +1,9 @@
 ------------------------------- MODULE MC_Reload -------------------------------
 EXTENDS Reload
 \* keys: 1 chacha/s1 id1, 2 aes-128/s2 id2, 3 aes-256/s3 id3, 4 chacha/s1 id4 (same cipher+secret as key 1),
-\*       5 unusable cipher, 6 aes-192/s4 id6
-MCKeyCS == <<1, 2, 3, 1, 0, 4>>
-MCKeyID == <<1, 2, 3, 4, 5, 6>>
+\*       5 unusable cipher, 6 aes-192/s4 id6, 7 aes-256/s1 id7 (the SECRET of key 1 under another cipher: a different key)
+MCKeyCS == <<1, 2, 3, 1, 0, 4, 5>>
+MCKeyID == <<1, 2, 3, 4, 5, 6, 7>>
 \* addresses 1..3: service addresses; 4, 5: legacy ports (":port", all interfaces)
 T(a) == <<"tcp", a>>
 U(a) == <<"udp", a>>
@@ -24,7 +24,8 @@ Cat == {
   Ok(<< <<4, 1>>, <<4, 2>>, <<5, 3>> >>, <<>>),
   Ok(<< <<4, 6>> >>, << Svc(<<1>>, <<T(1), U(1)>>) >>),
   Ok(<< <<4, 1>>, <<5, 5>> >>, <<>>),                                          \* bad cipher among the legacy keys
-  Ok(<<>>, << Svc(<<2, 1>>, <<U(1), T(3)>>), Svc(<<4>>, <<T(2)>>) >>)
+  Ok(<<>>, << Svc(<<2, 1>>, <<U(1), T(3)>>), Svc(<<4>>, <<T(2)>>) >>),
+  Ok(<<>>, << Svc(<<1, 7, 2>>, <<T(1), U(1)>>), Svc(<<7, 4>>, <<T(2), U(2)>>) >>)
 }
 \* configurations that load (hand-over scenarios, C11)
 CatOk == {
@@ -34,7 +35,8 @@ CatOk == {
   Ok(<<>>, << Svc(<<3, 1>>, <<T(1), U(1)>>), Svc(<<2, 6>>, <<T(2), U(2)>>) >>),
   Ok(<< <<4, 1>>, <<4, 2>>, <<5, 3>> >>, <<>>),
   Ok(<< <<4, 6>>, <<4, 2>> >>, << Svc(<<1>>, <<T(1), U(1)>>) >>),
-  Ok(<<>>, << Svc(<<2, 1>>, <<U(1), T(3)>>), Svc(<<4>>, <<T(2)>>) >>)
+  Ok(<<>>, << Svc(<<2, 1>>, <<U(1), T(3)>>), Svc(<<4>>, <<T(2)>>) >>),
+  Ok(<<>>, << Svc(<<1, 7>>, <<T(1), U(1)>>), Svc(<<7, 4>>, <<T(2), U(2), T(3)>>) >>)
 }
 NoListeners == {}
 \* a small catalogue for the exhaustive quick run
